@@ -7,7 +7,7 @@ From Coq Require Import List NArith Bool.
 Import ListNotations.
 Local Open Scope N_scope.
 
-(* ---- network parameters ------------------------------------------------------------------------ *)
+(* ---- network sizes ----------------------------------------------------------------------------- *)
 
 (* spe = SlotsPerEpoch, epp = EpochsPerSyncCommitteePeriod.  boundary_fix selects the code with
    (true) or without (false) the epoch / period boundary repair of finding F7; see cfg_ok for
